@@ -8,9 +8,13 @@
    product distribution of the whole horizon, of the simulator model's period-t cost (window full) equals
    nvd_cost h p S (L-fold convolution of the pmf) — the analytical model of newsvendor_discrete (Alg/NVDiscrete.v, C10) applied
    to the lead-time-demand pmf of the DemandSource model (Alg/Gen.v conv_pow, C16); and the newsvendor level minimises it.
-   NOT theorems: the ergodic convergence of the time average, continuous (normal) demand, the (s,S) and serial-system (SSM)
-   analogues and the confidence band: they are decided by a statistical run (batch means, band sized for a false-alarm
-   probability below 1e-6), reported in the evidence as search. *)
+   Further parts of this file (appended later, each with its own header): serial systems of any length — the pathwise Clark-Scarf
+   recursion (Sim/CS*.v) and the expectation step E[simulated period cost] = SSM.topdown = ssm_cost (Sim/SerialExp*.v) — and the single
+   (s,S) stage — pathwise rule, the offsets' law = trans of Alg/SS.v, Cesaro average of the expected cost within ergB/T of the value
+   s_s_cost_discrete reports (Sim/SSim*.v).
+   NOT theorems: almost-sure convergence of REALISED time averages, continuous (normal) demand, the (s,S) expectation for lead times >= 2
+   and the confidence band: they are decided by a statistical run (batch means, band sized for a false-alarm probability below 1e-6),
+   reported in the evidence as search. *)
 From SV Require Import Base.Qx Alg.Gen Alg.NVDiscrete Sim.Model Sim.Single Sim.NVExpect.
 
 Section C15.
@@ -60,7 +64,8 @@ Example C15_expectation_nonvacuous :
   qobs (expect_list 3 0 ex_pm (period_cost (inject_Z 2) 1 4 2 [(fun _ => false); (fun _ => false); (fun _ => false)] 2)) = (15, 8)%Z.
 Proof. split; [exact (proj1 ex_hyps)|]. split; [exact (proj1 (proj2 ex_hyps))|]. vm_compute. repeat split; reflexivity. Qed.
 
-Definition long_run_average_statement : Prop := True (* time average of the period cost -> E[h (S-D_L)^+ + p (D_L-S)^+] almost surely (the expectation itself is C15_expected_period_cost); (s,S) and SSM analogues: not provable about code; statistical search only *).
+(* almost-sure convergence of the time average of the period cost is not stated: it is not a statement about code. The expected-value forms are
+   theorems: C15_expected_period_cost (base stock), C15_serial_expected_cost_is_ssm_cost (serial), C15_sS_stage_long_run_expected_cost ((s,S)). *)
 
 Example C15_nonvacuous :
   let recs := run (NW1 10 1 4 2) (mk_inputs (map (fun d => ((fun _ : N => false), d)) [3; 5; 2; 7; 1])) in
